@@ -76,8 +76,10 @@ def format_emboss_parse_tree(parse_tree, config, used_productions=None):
             return lambda _, *args: handler(*(args + (config,)))
 
         formatters[production] = wrapped_handler(handler)
+    # Documentation and comment tokens may carry trailing whitespace, which must
+    # not count toward column widths (it is dropped from the rendered line).
     return parser_util.transform_parse_tree(
-        parse_tree, lambda n: n.text, formatters, used_productions
+        parse_tree, lambda n: n.text.rstrip(), formatters, used_productions
     )
 
 
